@@ -141,6 +141,11 @@ func ruleShortRead(c *Ctx, r *Report, scope func(*ssa.Function) bool) int {
 				if !strings.HasPrefix(ts, "io.") {
 					continue
 				}
+				// a Read method that forwards its own buffer is itself an io.Reader (an adapter): passing a short
+				// read on to its caller is the contract, not a defect
+				if f.Name() == "Read" && f.Signature.Recv() != nil && len(f.Params) == 2 && call.Call.Args[0] == ssa.Value(f.Params[1]) {
+					continue
+				}
 				n++
 				key := fmt.Sprintf("%s:%s.Read", SSAFuncName(f), ts)
 				if inLoop[b] {
@@ -754,4 +759,50 @@ func ruleTerminatorFlag(c *Ctx, r *Report) {
 	default:
 		r.OK("DEP", key, c.Pos(f.Pos()), fmt.Sprintf("%d tests of the flag parameter itself decide the terminating zero byte", n))
 	}
+}
+
+// ruleStartPosFromInput (O-POS): in DecodeFile and DecodeFileSR the start position handed to the next box decoder
+// (and recorded in the box, the fragment and the segment) is derived from where the input is (the slice reader's
+// position, the ReadSeeker's position, the count of bytes read), never from Box.Size(): Size() is the size the box
+// will have when written, which differs from the size read for a small box with a 16-byte header and for every
+// box the decoder normalises, and every later start position would drift by the difference.
+func ruleStartPosFromInput(c *Ctx, r *Report) int {
+	n := 0
+	for _, spec := range []struct{ fn, callee string }{{"DecodeFile", "mp4.DecodeBox"}, {"DecodeFile", "mp4.DecodeBoxLazyMdat"}, {"DecodeFileSR", "mp4.DecodeBoxSR"}} {
+		f := c.ssaFunc(r, "O-POS", "mp4", spec.fn)
+		if f == nil {
+			continue
+		}
+		for _, call := range callsIn(f, spec.callee, false) {
+			if !strings.HasSuffix(calleeName(call.Common()), spec.callee) {
+				continue
+			}
+			n++
+			key := fmt.Sprintf("mp4.%s:start-position-of-%s", spec.fn, strings.TrimPrefix(spec.callee, "mp4."))
+			pos := call.Common().Args[0]
+			sl := backSlice(c, pos, 2)
+			usesSize := false
+			fromInput := false
+			for k := range sl {
+				if k.kind == "call" && (strings.HasSuffix(k.name, ".Size") || k.name == "Size") {
+					usesSize = true
+				}
+				if k.kind == "call" && (strings.HasSuffix(k.name, "GetPos") || strings.HasSuffix(k.name, "Seek")) {
+					fromInput = true
+				}
+				if k.kind == "field" && strings.Contains(k.name, "countingReader") {
+					fromInput = true
+				}
+			}
+			switch {
+			case usesSize:
+				r.Bad("O-POS", key, c.Pos(call.Pos()), "the start position depends on Box.Size(), the re-calculated size: after a box whose written size differs from its read size (16-byte header on a small box) every later start position is off")
+			case !fromInput:
+				r.Undecided("O-POS", key, c.Pos(call.Pos()), "the start position depends neither on Size() nor on a recognised input position (GetPos, Seek, bytes counted): "+sliceNames(sl))
+			default:
+				r.OK("O-POS", key, c.Pos(call.Pos()), "the start position follows the input position")
+			}
+		}
+	}
+	return n
 }
